@@ -6,6 +6,7 @@ non-vacuity examples.
 import PeroVerif.Model.Lev
 import PeroVerif.Spec.Lev
 import PeroVerif.Lemmas.Lev
+import PeroVerif.Lemmas.LevSub
 
 namespace C13
 open Lev
@@ -69,5 +70,20 @@ theorem aggregate_singleton (x : Summary) : Summary.aggregate [x] = x :=
 example : dist unit [1, 2, 3, 4] [9, 1, 2] = 3 := by decide
 example : distSub unit [1, 2, 3, 4] [9, 1, 2] = 1 := by decide
 example : alignment unit [1, 2, 3] [1, 3] = some [(some 1, some 1), (some 2, none), (some 3, some 3)] := by decide
+
+/-! ### substring alignment -/
+
+/-- a free pair consumes only the longer sequence (the first one unless the call swapped them) -/
+def isFree (swapped : Bool) (p : Option α × Option α) : Bool := if swapped then p.1.isNone else p.2.isNone
+
+/-- `levenshtein_alignment_substring` never runs out of its matrix, projects to both inputs, and once its
+free leading and trailing part is removed its cost is exactly the substring optimum. -/
+theorem substring_alignment_correct (c : Costs) (s t : List α) :
+    ∃ al, alignmentSub c s t = some al ∧ WellFormed al ∧ srcOf al = s ∧ tgtOf al = t ∧
+      ∃ pre core suf, al = pre ++ core ++ suf ∧
+        (∀ p ∈ pre, isFree (decide (t.length > s.length)) p = true) ∧
+        (∀ p ∈ suf, isFree (decide (t.length > s.length)) p = true) ∧
+        cost c (if decide (t.length > s.length) then core.map Prod.swap else core) = distSub c s t :=
+  alignmentSub_ok c s t
 
 end C13
